@@ -49,7 +49,7 @@ def floatOps : FloatOps Float where
   gt a b := a > b
   feq a b := a == b
   ewma r s := (1.0 - 0.1) * r + 0.1 * s
-  rto rtt rate := fmax (4.0 * rtt) (natF (2 * MSS) / natF rate)
+  rto rtt rate := fmax (4.0 * rtt) (natF (2 * MSS) / natF (max rate 1))
   tcpRate rtt p :=
     let s := natF MSS
     let fp := (p * 2.0 / 3.0).sqrt + 12.0 * (p * 3.0 / 8.0).sqrt * p * (1.0 + 32.0 * p * p)
